@@ -47,7 +47,7 @@ MIN_REACH = {
     "partial_reaps_of_a_harvester_crop_without_sync": {"quick": 8, "thorough": 100},
     "crops_without_a_saved_function_reaped_through_bare_handles": {"quick": 6, "thorough": 60},
     "partial_reaps_with_warnings_turned_into_errors": {"quick": 50, "thorough": 800},
-    "crops_whose_function_returns_a_plain_dict_of_outputs": {"quick": 2, "thorough": 20},
+    "crops_whose_function_returns_a_plain_dict_of_outputs": {"quick": 2, "thorough": 7},
 }
 TIME_BUDGET = {"quick": 400, "thorough": 3400}
 CASE_TIMEOUT = {"quick": 300, "thorough": 900}
